@@ -13,7 +13,6 @@ import (
 	"strings"
 	"sync"
 	"sync/atomic"
-	"testing"
 	"time"
 
 	"github.com/sarchlab/akita/v5/datarecording"
@@ -356,13 +355,6 @@ func c35Execute(c c35Case, dir string, special bool) c35Report {
 	return rep
 }
 
-func firstLineOf(s string) string {
-	if i := strings.IndexByte(s, '\n'); i >= 0 {
-		return s[:i]
-	}
-	return s
-}
-
 // c35PanicSig classifies a panic out of the recorder by its message so that
 // the signature names the failure class rather than an address.
 func c35PanicSig(sig, msg string, concurrent bool) string {
@@ -663,35 +655,29 @@ func c35ValueDiff(f c35Field, want c35Val, got any, special bool) string {
 	return fmt.Sprintf("kind %s stored as %v (%T)", f.Kind, got, got)
 }
 
-// ---- child entry point ----------------------------------------------------------------
+// ---- child side ------------------------------------------------------------------------------
 
-// TestChildC35 runs one case file in this process and writes the report. It is
-// not a check (the name does not start with TestC35).
-func TestChildC35(t *testing.T) {
-	cf := os.Getenv("VERIF_C35_CASE")
-	if cf == "" {
-		t.Skip("child entry point")
-	}
+// c35ServeCase runs one case file in this (child) process and writes the
+// report. It returns true when the process must not be reused (wedged
+// goroutines were left behind).
+func c35ServeCase(cf, of string) bool {
+	var rep c35Report
 	b, err := os.ReadFile(cf)
-	if err != nil {
-		t.Fatal(err)
-	}
 	var c c35Case
-	if err := json.Unmarshal(b, &c); err != nil {
-		t.Fatal(err)
+	if err == nil {
+		err = json.Unmarshal(b, &c)
 	}
-	rep := c35Execute(c, filepath.Dir(cf), false)
+	if err != nil {
+		rep.Hang = "harness: " + err.Error()
+	} else {
+		rep = c35Execute(c, filepath.Dir(cf), false)
+	}
 	if rep.Hang != "" {
 		buf := make([]byte, 1<<20)
 		buf = buf[:runtime.Stack(buf, true)]
 		_ = os.WriteFile(cf+".goroutines", buf, 0o644)
 	}
 	ob, _ := json.Marshal(rep)
-	if err := os.WriteFile(os.Getenv("VERIF_C35_OUT"), ob, 0o644); err != nil {
-		t.Fatal(err)
-	}
-	if rep.Hang != "" {
-		os.Exit(3)
-	}
+	_ = os.WriteFile(of, ob, 0o644)
+	return rep.Hang != ""
 }
-
